@@ -23,6 +23,8 @@ static TICKS: [AtomicU64; NSLOTS] = [const { AtomicU64::new(0) }; NSLOTS];
 static ACTIVE: [AtomicU64; NSLOTS] = [const { AtomicU64::new(0) }; NSLOTS];
 static SLOT_FREE: [AtomicU64; NSLOTS] = [const { AtomicU64::new(1) }; NSLOTS];
 static CRASH_SLOT: AtomicI64 = AtomicI64::new(-1);
+/// CPU-time clock of the worker thread that owns the slot (pthread_getcpuclockid), -1 if unknown
+static CLOCKID: [AtomicI64; NSLOTS] = [const { AtomicI64::new(-1) }; NSLOTS];
 
 thread_local! {
     static MY: Cell<usize> = const { Cell::new(usize::MAX) };
@@ -36,6 +38,7 @@ impl Drop for Guard {
             let i = c.get();
             if i != usize::MAX {
                 ACTIVE[i].store(0, Ordering::SeqCst);
+                CLOCKID[i].store(-1, Ordering::SeqCst);
                 SLOT_FREE[i].store(1, Ordering::SeqCst);
                 c.set(usize::MAX);
             }
@@ -85,6 +88,9 @@ fn my_slot() -> Option<usize> {
     for (i, f) in SLOT_FREE.iter().enumerate() {
         if f.compare_exchange(1, 0, Ordering::SeqCst, Ordering::SeqCst).is_ok() {
             MY.with(|c| c.set(i));
+            let mut cid: libc::clockid_t = 0;
+            let ok = unsafe { libc::pthread_getcpuclockid(libc::pthread_self(), &mut cid) } == 0;
+            CLOCKID[i].store(if ok { cid as i64 } else { -1 }, Ordering::SeqCst);
             NEXT.fetch_max(i + 1, Ordering::SeqCst);
             return Some(i);
         }
@@ -200,10 +206,32 @@ fn slot_json(i: usize, u: &Universe) -> Option<Value> {
     }
 }
 
+/// CPU time consumed so far by the thread owning slot `i` (None if unknown).
+fn thread_cpu_s(i: usize) -> Option<f64> {
+    let cid = CLOCKID[i].load(Ordering::Relaxed);
+    if cid == -1 {
+        return None;
+    }
+    let mut ts = libc::timespec { tv_sec: 0, tv_nsec: 0 };
+    if unsafe { libc::clock_gettime(cid as libc::clockid_t, &mut ts) } != 0 {
+        return None;
+    }
+    Some(ts.tv_sec as f64 + ts.tv_nsec as f64 * 1e-9)
+}
+
 /// Monitor loop: returns only by exiting the process when a worker stalls.
+///
+/// The deadline is measured in **CPU time of the stalled worker thread**, so a
+/// machine that is busy with other work (and schedules the worker rarely) cannot
+/// turn a slow but terminating transition into a "hang": the worker has to burn
+/// `deadline_s` seconds of CPU inside one unit of work without a heartbeat. A
+/// wall-clock fallback (30 x the deadline, at least 120 s) covers a worker that
+/// blocks without consuming CPU.
 pub fn monitor(deadline_s: f64, hang_file: String, u: Universe, stop: &std::sync::atomic::AtomicBool) {
     let mut last = [0u64; NSLOTS];
     let mut since = [std::time::Instant::now(); NSLOTS];
+    let mut cpu0 = [None::<f64>; NSLOTS];
+    let wall_fallback = (deadline_s * 30.0).max(120.0);
     while !stop.load(Ordering::Relaxed) {
         std::thread::sleep(std::time::Duration::from_millis(200));
         let n = NEXT.load(Ordering::Relaxed).min(NSLOTS);
@@ -212,12 +240,23 @@ pub fn monitor(deadline_s: f64, hang_file: String, u: Universe, stop: &std::sync
             if t != last[i] || ACTIVE[i].load(Ordering::Relaxed) == 0 {
                 last[i] = t;
                 since[i] = std::time::Instant::now();
-            } else if since[i].elapsed().as_secs_f64() > deadline_s {
+                cpu0[i] = thread_cpu_s(i);
+                continue;
+            }
+            let wall = since[i].elapsed().as_secs_f64();
+            if wall <= deadline_s {
+                continue;
+            }
+            let (stalled, how) = match (cpu0[i], thread_cpu_s(i)) {
+                (Some(a), Some(b)) => (b - a > deadline_s || wall > wall_fallback, format!("{:.1} s of CPU time, {:.1} s wall", b - a, wall)),
+                _ => (wall > wall_fallback, format!("{:.1} s wall", wall)),
+            };
+            if stalled {
                 if let Some(mut j) = slot_json(i, &u) {
-                    j["reason"] = json!(format!("no progress for {:.0} s (operation does not terminate)", deadline_s));
+                    j["reason"] = json!(format!("no progress for {how} (operation does not terminate)"));
                     let _ = std::fs::write(&hang_file, serde_json::to_string_pretty(&j).unwrap());
                 }
-                eprintln!("lrumc: a worker made no progress for {deadline_s} s; recording the transition and exiting for a restart");
+                eprintln!("lrumc: a worker made no progress for {how}; recording the transition and exiting for a restart");
                 unsafe { libc::_exit(3) };
             }
         }
